@@ -113,7 +113,7 @@ def run(tier):
     chk = vlib.Check("C09", tier)
     quick = tier == "quick"
     chk.add_model([dict(module="MC_ScaleAlgo.tla", cfg="MC_ScaleAlgo_quick.cfg" if quick else "MC_ScaleAlgo_thorough.cfg", workers=8, timeout=3000)])
-    chk.cov["apalache_ScaleLemma"] = apalache(chk)
+    chk.cov["apalache_ScaleLemma"] = vlib.apalache(chk.work, "obj/ScaleLemma.tla")
     drive = vlib.build_harness(chk.work)
     jobs, hid = gen_jobs(chk.rng, quick)
     # pass 1: create real sources to learn their sizes (sizes are inputs to the request generator, not expectations)
